@@ -62,7 +62,7 @@ def value_pool(rng, flag):
     if flag == "-ma":
         return rng.choice(["s,x", "^", "d,*,+"])
     if flag == "-ms":
-        return rng.choice(["3,11", "5", "2,4,6"])
+        return rng.choice(["3,11", "5", "2,4,6", "1.5,7.5", "2.5"])          # sizes are numbers, like line widths
     if flag == "-gc":
         return rng.choice(["r", "b", "k", "0.3", "[0.3,0,0]", "[0,0.5,1]"])      # the help text's own examples: red,[0.3,0,0],0.3
     if flag == "-gs":
